@@ -142,6 +142,29 @@ def check_circuit(recipe, env, maxph, acc, late=False):
     acc.sample({"recipe": recipe["name"], "ops": recipe["ops"], "max_photons": maxph}, limit=2)
 
 
+def check_bunched(env, acc):
+    """Two modes, 13..18 photons: the product of occupation factorials leaves the 64-bit range."""
+    c = lw.Circuit(2)
+    c.bs(0, reflectivity=env.R[1]); c.ps(0, env.PH[0]); c.bs(0, reflectivity=env.R2, convention="H")
+    U = c.U_full
+    sim = emu.Simulator(c)
+    for vin in ((13, 0), (0, 16), (9, 9), (12, 1)):
+        case = {"scenario": "bunched", "input": vin, "seed": env.seed}
+        acc.tick("executions"); acc.tick("transitions")
+        ref = ref_fock.evolve_poly(U, vin)
+        try:
+            res = sim.simulate(lw.State(list(vin)))
+        except Exception as e:  # noqa: BLE001
+            acc.violation("valid_input_raises", case, {"error": repr(e), "cause": repr(e.__cause__)})
+            continue
+        for b, o in enumerate(res.outputs):
+            w = ref.get(tuple(o.s), 0)
+            if abs(res.array[0, b] - w) > 1e-9:
+                acc.violation("amplitude", {**case, "output": tuple(o.s)}, {"impl": complex(res.array[0, b]), "ref": complex(w)})
+                break
+        acc.state("bunched", vin); acc.nontriv("bunched", vin)
+
+
 def check_reuse(env, acc):
     """One Simulator object reused while the circuit's parameters move by tiny and by large steps."""
     par = lw.Parameter(env.PH[0])
@@ -191,7 +214,7 @@ def run(tier, seed):
         return a
 
     acc.merge(kernel.pmap(shard_lay, kernel.interleave(lay, kernel.NPROC * 2)))
-    ra = kernel.Acc(); check_reuse(env, ra); acc.merge(ra)
+    ra = kernel.Acc(); check_reuse(env, ra); check_bunched(env, ra); acc.merge(ra)
     meta = {
         "rule": "every circuit recipe of the family (n in 2..4 x 5 loss placements incl. loss 0 and 1 x 7 herald "
                 "layouts incl. in!=out and descending declaration + internal ancillas from heralded subs; plus EVERY "
@@ -212,6 +235,9 @@ def run(tier, seed):
 def replay(w, acc):
     case = w["case"]
     env = Env(case.get("seed", 0))
+    if case.get("scenario") == "bunched":
+        check_bunched(env, acc)
+        return
     if case.get("scenario") == "simulator_reuse":
         check_reuse(env, acc)
         return
